@@ -1814,6 +1814,20 @@ def mpf_gamma(x, prec, rnd='d', type=0):
                 if type == 2: return mpf_div(fone, w, prec, rnd)
                 if type == 3: return mpf_log(mpf_abs(w), prec, rnd)
 
+    # Close to 0 at a precision beyond the reach of the Taylor series: the
+    # fixed-point form of x below keeps only wp+mag bits of it, and the
+    # Stirling branch has no floating-point treatment of that case. Use
+    # gamma(x) = gamma(x+1)/x, with x+1 formed exactly
+    if mag < -8 and wp >= MAX_GAMMA_TAYLOR_PREC:
+        x1 = mpf_add(x, fone)
+        if type == 0:
+            return mpf_div(mpf_gamma(x1, wp+10, rnd, 0), x, prec, rnd)
+        if type == 2:
+            return mpf_mul(mpf_gamma(x1, wp+10, rnd, 2), x, prec, rnd)
+        if type == 3:
+            return mpf_sub(mpf_gamma(x1, wp+10, rnd, 3),
+                mpf_log(mpf_abs(x), wp+10), prec, rnd)
+
     # Convert to fixed point
     offset = exp + wp
     if offset >= 0: absxman = man << offset
